@@ -3,7 +3,8 @@ from symprov.oblig import Obligation
 from harness.common import EX, TIMES, add_record, new_doc, stub_logging_str
 
 DERIVE = ["record.copy", "add_record", "constructor_records", "update", "add_bundle_document", "unified", "flattened",
-          "json_container_decode", "bundle.unified"]
+          "json_container_decode", "bundle.unified", "add_record(own record)", "update(self)", "add_record(copy of own record)",
+          "deserialize(content) twice"]
 MUTATE = ["add_attributes", "new_record", "add_namespace", "set_default_namespace", "bundle", "add_record_from_third"]
 
 
@@ -77,6 +78,9 @@ def isolation(ctx):
     src = _source(ctx, with_default)
     if op in (6,) or ctx.params.get("bundle"):
         b = src.bundle("en:bb")
+        if ctx.params.get("bundle_default"):
+            b.set_default_namespace("http://bd/")
+            b.entity("indefault")
         b.entity("ex:" + ctx.str("id", 2, 1, "name"), {"ex:k": 2})
         b.entity("en:inb")
     src_side = src
@@ -106,25 +110,60 @@ def isolation(ctx):
 
         res = ProvDocument()
         decode_json_document(encode_json_document(src), res)
-    else:
+    elif op == 8:
         bsrc = [b for b in src.bundles][0]
         res = bsrc.unified()
         src_side = src
+    elif op == 9:
+        # re-adding a bundle's own record creates a NEW record (a second assertion), not an alias
+        res_rec = src.add_record(src.get_records()[0])
+        res = None
+    elif op == 10:
+        n0 = len(src.get_records())
+        src.update(src)
+        ctx.check(len(src.get_records()) == 2 * n0, "update(self) did not add one new record per record")
+        res_rec = src.get_records()[n0]
+        res = None
+    elif op == 11:
+        mine = src.get_records()[0].copy()
+        res_rec = src.add_record(mine)
+        ctx.check(res_rec is not mine, "add_record returned the caller's own record object")
+        res = None
+        ctx.observe("alias", res_rec is mine)
+    else:
+        fmt = ("json", "xml")[ctx.choose("fmt", 2)]  # the RDF reader's own limits are C07's subject
+        if ctx.sym:
+            # text level (C json / lxml / rdflib): the path search only enumerates the choices; the work is done on replay
+            m_ = ctx.params["mutation"] if "mutation" in ctx.params else ctx.choose("mutation", len(MUTATE))
+            side_ = ctx.choose("side", 2)
+            ctx.checks += 1
+            ctx.observe("op", [op, m_, side_])
+            return
+        text = src.serialize(format=fmt)
+        first = ProvDocument.deserialize(content=text, format=fmt)
+        res = ProvDocument.deserialize(content=text, format=fmt)
+        ctx.check(res is not first, "two deserialisations of one text returned the same object")
+        src = first  # the 'source' of the isolation check is the first reading
     # ---- heap check: no mutable container reachable from both sides --------------------------------------------
     if res is not None:
         a = mutable_ids(src)
         b = mutable_ids(res)
         shared = [a[i] for i in a if i in b]
         ctx.check(not shared, "source and derived object share mutable state: %s" % ", ".join(sorted(set(shared))))
-    if op in (0, 1):
+    REC_OPS = (0, 1, 9, 10, 11)
+    if op in REC_OPS:
         srec = src.get_records()[0]
+        ctx.check(res_rec is not srec, "the derived record IS the source record")
         ctx.check(res_rec._attributes is not srec._attributes, "copied record shares its attribute map with the source record")
         for k in srec._attributes:
             ctx.check(res_rec._attributes[k] is not srec._attributes[k], "copied record shares an attribute value set")
     # ---- follow-up mutation on one side, observe the other ------------------------------------------------------
     m = ctx.params["mutation"] if "mutation" in ctx.params else ctx.choose("mutation", len(MUTATE))
     side = ctx.choose("side", 2)  # 0: mutate the derived object, observe the source; 1: the reverse
-    if op == 0:
+    if op in (9, 10, 11):
+        ctx.assume(m == 0)
+        mutated_c, observed_c = None, None
+    elif op == 0:
         mutated_c, observed_c = (None, src) if side == 0 else (src, None)
     else:
         mutated_c, observed_c = (res, src) if side == 0 else (src, res)
@@ -134,8 +173,8 @@ def isolation(ctx):
             recs = [r for b in c.bundles for r in b.get_records()]
         return recs[0]
 
-    mutated_r = res_rec if (op in (0, 1) and side == 0) else (src.get_records()[0] if side == 1 else first_record(res))
-    observed_r = (src.get_records()[0] if side == 0 else res_rec) if op in (0, 1) else None
+    mutated_r = res_rec if (op in REC_OPS and side == 0) else (src.get_records()[0] if side == 1 else first_record(res))
+    observed_r = (src.get_records()[0] if side == 0 else res_rec) if op in REC_OPS else None
     before_c = snap(S, observed_c) if observed_c is not None else None
     before_r = S.record_desc(observed_r) if observed_r is not None else None
     if m == 0:
@@ -184,7 +223,14 @@ def _shards(tier):
 
 def _base_shards(tier):
     out = []
-    for op in range(len(DERIVE)):
+    for op in (9, 10, 11):
+        out.append({"derive": op, "default": False, "mutation": 0})
+    out.append({"derive": 10, "default": False, "mutation": 0, "bundle": True})
+    out.append({"derive": 12, "default": False})
+    out.append({"derive": 12, "default": True, "bundle": True})
+    for op in (5, 8):
+        out.append({"derive": op, "default": False, "bundle": True, "bundle_default": True})
+    for op in range(9):
         for default in (False, True):
             if op == 8:
                 out.append({"derive": op, "default": default, "bundle": True})
@@ -197,7 +243,7 @@ def _base_shards(tier):
 
 OBLIGATIONS = [
     Obligation(name="isolation", fn=isolation, shards=_shards,
-               desc="after each of 9 deriving operations, (i) no dict/set/list/NamespaceManager object is reachable from both the source and the "
+               desc="after each of 13 deriving operations (incl. re-adding own records, update(self), unified() of a bundle with its own default namespace, and - on replay - reading one text twice), (i) no dict/set/list/NamespaceManager object is reachable from both the source and the "
                     "derived object, and (ii) each of 6 follow-up mutations applied to either side leaves the other side's strict content, record order, "
                     "registered namespaces and default namespace unchanged",
                bounds="source: 2 records (+ bundle with 2 records), with/without default namespace; identifiers EX+local |local|<=2 (aliasing decided by the solver, "
